@@ -5,6 +5,7 @@ package vprog
 import (
 	"encoding/json"
 	"sort"
+	"strconv"
 	"time"
 
 	"github.com/gkampitakis/go-snaps/vshim/gate"
@@ -56,8 +57,9 @@ func (in *Interp) runConc(h *Hist, st *Step) {
 		}
 	}
 	// lock picture kept by the scheduler itself
-	writer := ""
-	readers := map[string]bool{}
+	writer := map[string]string{}          // lock id -> goroutine holding it exclusively
+	readers := map[string]map[string]int{} // lock id -> goroutines holding it shared (with multiplicity)
+	norm := map[string]string{}            // lock ids renumbered in order of first use within this run
 	enabled := func() []string {
 		var out []string
 		for _, g := range names {
@@ -67,11 +69,11 @@ func (in *Interp) runConc(h *Hist, st *Step) {
 			}
 			switch op.Kind {
 			case "Lock":
-				if writer != "" || len(readers) > 0 {
+				if writer[op.Arg] != "" || len(readers[op.Arg]) > 0 {
 					continue
 				}
 			case "RLock":
-				if writer != "" {
+				if writer[op.Arg] != "" {
 					continue
 				}
 			}
@@ -91,15 +93,30 @@ func (in *Interp) runConc(h *Hist, st *Step) {
 		op, _, _ := s.Pending(g)
 		switch op.Kind {
 		case "Lock":
-			writer = g
+			writer[op.Arg] = g
 		case "Unlock":
-			writer = ""
+			delete(writer, op.Arg)
 		case "RLock":
-			readers[g] = true
+			if readers[op.Arg] == nil {
+				readers[op.Arg] = map[string]int{}
+			}
+			readers[op.Arg][g]++
 		case "RUnlock":
-			delete(readers, g)
+			if readers[op.Arg][g]--; readers[op.Arg][g] <= 0 {
+				delete(readers[op.Arg], g)
+			}
 		}
-		log = append(log, rec{G: g, Op: op.Kind, Arg: op.Arg, Enabled: en})
+		kind := op.Kind
+		switch kind {
+		case "Lock", "Unlock", "RLock", "RUnlock", "TryLock", "TryRLock":
+			if _, ok := norm[op.Arg]; !ok {
+				norm[op.Arg] = "rw" + strconv.Itoa(len(norm)+1)
+			}
+			if norm[op.Arg] != "rw1" {
+				kind += "#" + norm[op.Arg] // a second lock object: outside the single-lock model (no-op there)
+			}
+		}
+		log = append(log, rec{G: g, Op: kind, Arg: op.Arg, Enabled: en})
 		s.Release(g)
 		return settled(g)
 	}
@@ -146,4 +163,3 @@ func (in *Interp) runConc(h *Hist, st *Step) {
 	lb, _ := json.Marshal(log)
 	in.tr.emit(&Event{Ev: "concend", H: h.H, ID: st.ID, Note: note, Out: b64(string(lb)), Dirs: in.states(h)})
 }
-
